@@ -323,8 +323,8 @@ def search(ctx, exe):
     finally:
         rng_ctx.cleanup()
     # RT_CATCHALL: every byte of the fifo object is a scheduling point (fields the model does not know included)
-    impl = core.run_sharded(["env", "RT_CATCHALL=1", exe], cases)
-    for c, line in zip(cases, impl):
+    scases, impl = core.run_search(ctx, exe, cases)   # plain schedules first, then with every byte of the object a scheduling point
+    for c, line in zip(scases, impl):
         why = core.safe_monitor(monitor, c, core.parse_trace(line) if line else None, line)
         if why:
             core.report_violation(ctx, "mpmc+catchall", c, why, line)
